@@ -759,6 +759,12 @@ impl<'a> Interp<'a> {
             // Whatever the writer then reports must be self-consistent: the address it returns names a file holding
             // exactly the bytes of that address, and the key (if any) maps to it.
             self.probe("write_abandoned_mid_chunk");
+            // a declared size that equals the number of bytes the writer acknowledged is a matching declaration
+            if let (Some(sz), Some(acked)) = (opts.get("size").and_then(|x| x.as_u64()), r["acked"].as_u64()) {
+                if sz == acked && r["r"] == "err" && r["v"] == "SizeMismatch" {
+                    self.viol("commit-accept", format!("commit-accept/abandoned-chunk/{}/size-equals-acknowledged", Self::flav(st)), format!("the writer acknowledged {} bytes, {} were declared, and the commit was rejected: {}", acked, sz, r));
+                }
+            }
             if r["v"] == "Bogus" {
                 self.viol("write-ok", format!("write-ok/abandoned-chunk/{}/count-exceeds-buffer", Self::flav(st)), "after an earlier write future was dropped, write() reported more bytes than the buffer it was given (write_all panics on that)".to_string());
             }
